@@ -72,6 +72,7 @@ def make_exc(name, msg):
         "FloatingPointError": FloatingPointError,
         "MemoryError": MemoryError,
         "ValueError": ValueError,
+        "OSError": lambda m: OSError(12, m),
         "ZeroDivisionError": ZeroDivisionError,
         "KeyboardInterrupt": KeyboardInterrupt,
     }.get(name, ComputeFault)
